@@ -12,7 +12,8 @@ PROPERTY = 'C15'
 LEVEL = 'fault_enumeration'
 RULE = ('Reference conversations (status exchange; status-then-login with '
         'the crash point in the first and, separately, the second '
-        'connection; login with set-compression 0 / 256 and large frames; '
+        'connection, with the default version inside and outside the '
+        'allowed set; login with set-compression 0 / 256 and large frames; '
         'login with encryption; play traffic with keep-alives, an unknown '
         '300-byte frame, chat and a 3 KiB incompressible frame) at protocols '
         '47, 340, 404, 578, 754, 757, produced by scripted servers built on '
